@@ -1342,8 +1342,11 @@ type c19BlnType struct {
 }
 
 type c19BlnSpec struct {
-	Types      []c19BlnType `json:"types"` // configured order
-	ReservedNS []string     `json:"reserved_ns,omitempty"`
+	Types []c19BlnType `json:"types"` // configured order
+	// ReorderFirst: the policy is started with the same types in reverse order and then reconfigured to Types: "first in
+	// configured order" means the order of the configuration in force
+	ReorderFirst bool     `json:"reorder_first,omitempty"`
+	ReservedNS   []string `json:"reserved_ns,omitempty"`
 }
 
 var (
@@ -1395,6 +1398,7 @@ func (g *c19Gen) blnCase(n int) *c19Case {
 		}
 		sp.Types = append(sp.Types, t)
 	}
+	sp.ReorderFirst = r.Chance(1, 3)
 	if r.Chance(1, 2) {
 		sp.ReservedNS = []string{sysgen.Pick(r, []string{"reserved-*", "monitoring", "prod*", "ns-b"})}
 		if r.Chance(1, 3) {
@@ -1525,7 +1529,16 @@ func c19RunBalloon(ctx *Ctx, cs *c19Case, serial int) {
 	defer os.RemoveAll(stateDir)
 	var inst *rmdrv.Inst
 	var ierr error
-	if msg, _ := Guard(func() { inst, ierr = rmdrv.NewInst(stateDir, &rmdrv.Config{Policy: rmdrv.PolBalloons, Bln: bc, Gen: 1}) }); msg != "" || ierr != nil {
+	first := bc
+	if sp.ReorderFirst {
+		first = bc.DeepCopy()
+		for i, j := 0, len(first.BalloonDefs)-1; i < j; i, j = i+1, j-1 {
+			first.BalloonDefs[i], first.BalloonDefs[j] = first.BalloonDefs[j], first.BalloonDefs[i]
+		}
+	}
+	if msg, _ := Guard(func() {
+		inst, ierr = rmdrv.NewInst(stateDir, &rmdrv.Config{Policy: rmdrv.PolBalloons, Bln: first, Gen: 1})
+	}); msg != "" || ierr != nil {
 		ctx.Count("balloon_config_rejected")
 		if ctx.Replay != "" {
 			fmt.Println("replay: instance did not start:", msg, ierr)
@@ -1533,6 +1546,16 @@ func c19RunBalloon(ctx *Ctx, cs *c19Case, serial int) {
 		return
 	}
 	defer inst.Close()
+	if sp.ReorderFirst {
+		var rerr error
+		if msg, _ := Guard(func() {
+			rerr = inst.RM.Reconfigure((&rmdrv.Config{Policy: rmdrv.PolBalloons, Bln: bc, Gen: 2}).ResmgrConfig())
+		}); msg != "" || rerr != nil {
+			ctx.Count("balloon_reorder_reconfigure_rejected")
+			return
+		}
+		ctx.Count("balloon_cases_reordered_by_reconfigure")
+	}
 	for pi := range w.Pods {
 		if err := inst.RM.RunPodSandbox(w.Pods[pi].api()); err != nil {
 			ctx.Count("runpod_failed")
